@@ -228,3 +228,25 @@ def run(repo: Repo, rep: Report, tier: str) -> None:
     # ---------------- R9 ---------------------------------------------------------------
     _borrow4(repo, rep, "C12", "C12-R2", "C04-R9", "the loop's wire carries only the loop: a relay pole on a long feedback or reader wire is shared with another network of the same "
              "colour only through can_route_network, otherwise the other network's value of the cell's signal is added into the cell every tick", floor=5)
+
+    # ---------------- R10 --------------------------------------------------------------
+    rep.rule("C04-R10", "a one-combinator loop reads its own value and its input apart: the loop wire of a folded cell is red, so whatever else reaches that combinator on the "
+             "cell's signal is locked to the other colour (a lock keyed by the feeding source, set under `source != the cell`) — with both on red the operand sees value + input "
+             "twice and `c.write(c.read() + x)` iterates 2v + 2x")
+    dl = repo.func("LayoutPlanner._determine_locked_wire_colors")
+    from .util import cguards as _cg10
+    stores10 = []
+    for st in walk_local(dl.node):
+        if isinstance(st, ast.Assign) and isinstance(st.targets[0], ast.Subscript) and isinstance(st.targets[0].slice, ast.Tuple) and len(st.targets[0].slice.elts) == 2 \
+                and isinstance(st.value, ast.Constant) and st.value.value in ("red", "green"):
+            gs = _cg10(dl, st)
+            if any(pol and "'has_self_feedback'" in g for g, pol in gs):
+                stores10.append((st, gs))
+    own = [(st, gs) for st, gs in stores10 if st.value.value == "red"]
+    other = [(st, gs) for st, gs in stores10 if st.value.value == "green" and norm(st.targets[0].slice.elts[0]) != norm(own[0][0].targets[0].slice.elts[0]) if own
+             and norm(st.targets[0].slice.elts[1]) == norm(own[0][0].targets[0].slice.elts[1])]
+    apart = [1 for st, gs in other if any((not pol) and " == " in g for g, pol in gs)]
+    rep.check(bool(own), "C04-R10", "_determine_locked_wire_colors: a folded cell's own output is locked to red", "locked under has_self_feedback" if own else "no lock for has_self_feedback placements", dl.loc())
+    rep.check(bool(other) and bool(apart), "C04-R10", "_determine_locked_wire_colors: other sources of the cell's signal into a folded cell are locked to green",
+              "lock keyed by the feeding source, for sources other than the cell" if other and apart else
+              "only the cell's own output is locked: an input on the cell's signal shares the red loop wire", dl.loc(own[0][0]) if own else dl.loc())
